@@ -23,7 +23,7 @@ EXTRA = [
 
 def gen_nests(ck: Check):
     for n in EXTRA + SYSTEMATIC:
-        yield "systematic", n
+        yield "systematic", L.normalize(n)
     for _ in range(70 if ck.quick else 800):
         yield "random", L.gen_tree(ck.rng, maxdepth=3, lengths=(0, 1, 2, 3), width=3)
 
@@ -70,7 +70,8 @@ def run(ck: Check) -> None:
         "limits and under a sweep of each of the five limits alone - loop_iteration_limit 0..2*largest loop product, output_stream_limit "
         "0..2*unlimited bytes, local_namespace_limit 0, t-1, t for every observed namespace size t, 2*max, context_depth_limit 0..14, "
         "block_nesting_limit 0..5 - and under 6 random ordered pairs lim <= lim' of joint configurations; oracle: equal to the unlimited "
-        "render or a ResourceLimitError, and monotone along every sweep / pair. Distinct = distinct (nest, limits)."
+        "render or a ResourceLimitError, and monotone along every sweep / pair; 5 of the configurations per nest again in LAX (some in "
+        "WARN) mode: equal to the strict render whenever that completes. Distinct = distinct (nest, limits, mode)."
     )
     ck.exhaustive = False
     ck.trusted_base = [
@@ -99,6 +100,7 @@ def run(ck: Check) -> None:
         sw.group(nest, printed)
         sw.add(nolim, bsizes, base)
         cache = {}
+        seen = []
 
         def go(lim):
             if lim.key() not in cache:
@@ -113,6 +115,7 @@ def run(ck: Check) -> None:
                 else:
                     sw.add(lim, sizes, s, explained=v is not None)
                 cache[lim.key()] = s
+                seen.append(lim)
             return cache[lim.key()]
 
         sv = sweeps_for(ck, nest, printed, base)
@@ -151,6 +154,28 @@ def run(ck: Check) -> None:
                 report("c08-limit-zero-means-unlimited-joint" if zero else "c08-not-monotone-joint",
                        f"succeeds under {l1.as_dict()} but gives {s2[:2]} under the pointwise larger limits",
                        nest, printed, l2, s2, {"kind": "monotone", "smaller": l1.as_dict()})
+        # the mode only matters once an error is raised: whenever the strict render under some limits completes, the warn
+        # and lax renders under the same limits return the same output (and the model agrees on what they return otherwise)
+        for lim0 in ck.rng.sample(seen, min(5, len(seen))):
+            for mode in (("lax", "warn") if ck.rng.random() < 0.3 else ("lax",)):
+                lim = lim0.replace(mode=mode)
+                if lim.nest != L.DEFAULT_NEST:
+                    continue  # parser recovery after a nesting error in tolerant mode is outside the model
+                s, sizes = L.run_impl(nest, lim, False, printed)
+                a, _ = L.run_impl(nest, lim, True, printed)
+                strict = cache[lim0.key()]
+                ck.note_case((nest, lim.key()), nontrivial=True)
+                ck.count(f"{mode}." + ("same-as-strict" if s[:2] == strict[:2] else "strict-raised" if strict[0] == "err" else "BROKEN"))
+                v = None
+                if s != a:
+                    v = (f"c08-{mode}-sync-async-differ", f"sync {s[:2]} but async {a[:2]}")
+                elif strict[0] == "out" and s[:2] != strict[:2]:
+                    v = (f"c08-{mode}-differs-from-completed-strict-render",
+                         f"the strict render completes with {strict[1]!r} but the {mode} render gives {s[:2]}")
+                if v is not None:
+                    report(v[0], v[1], nest, printed, lim, s, {"async": a, "strict": strict[:2], "kind": "mode"})
+                if not (s[0] == "err" and s[1].startswith("other:")):
+                    sw.add(lim, sizes, s, explained=v is not None)
     g = sw.groups[2]
     r = g[2][min(4, len(g[2]) - 1)]
     ck.sample({"template": g[1][0], "partials": g[1][1], "limits": r[0].as_dict(), "observed": r[2][:2]})
@@ -179,7 +204,12 @@ def replay(data) -> int:
     print("unlimited:", base[:2])
     print("limits:", lim.as_dict(), "sync:", s[:2], "async:", a[:2])
     bad = None
-    if case.get("kind") == "monotone":
+    if case.get("kind") == "mode":
+        s0, _ = L.run_impl(nest, lim.replace(mode="strict"), False, printed)
+        print("strict:", s0[:2])
+        if s != a or (s0[0] == "out" and s[:2] != s0[:2]):
+            bad = "the tolerant-mode render differs from the completed strict render (or sync from async)"
+    elif case.get("kind") == "monotone":
         small = L.Limits.from_dict(case["smaller"])
         s0, _ = L.run_impl(nest, small, False, printed)
         print("smaller limits:", small.as_dict(), "sync:", s0[:2])
